@@ -11,7 +11,7 @@
 (* ("MBT ..."), it is a behaviour of the real code.                        *)
 (*                                                                         *)
 (* Strings are sequences of one-character strings; "\n" LF, "\r" CR,       *)
-(* "\t" TAB, backslash and double quote are written N, R, T, B, Q in the  *)
+(* "\t" TAB, backslash, double quote: <LF> <CR> <TAB> <BS> <Q> in the     *)
 (* table to keep JSON and cfg files plain.                                 *)
 (***************************************************************************)
 EXTENDS Naturals, Integers, Sequences, FiniteSets, TLC, Json, SequencesExt
@@ -52,8 +52,8 @@ SplitOn(s, c) ==       \* components between occurrences of character c
   ELSE LET i == CHOOSE x \in idx : \A y \in idx : x <= y
        IN << SubSeq(s, 1, i - 1) >> \o SplitOn(SubSeq(s, i + 1, Len(s)), c)
 
-IsWs(c) == c \in {" ", "T"}
-IsNl(c) == c \in {"N", "R"}
+IsWs(c) == c \in {" ", "<TAB>"}
+IsNl(c) == c \in {"<LF>", "<CR>"}
 AllWs(s) == \A i \in 1..Len(s) : IsWs(s[i])
 
 -----------------------------------------------------------------------------
@@ -62,7 +62,7 @@ AllWs(s) == \A i \in 1..Len(s) : IsWs(s[i])
 
 Unsafe(s) ==
   \/ s # << >> /\ s[1] = "/"
-  \/ \E i \in 1..Len(s) : s[i] = "B"
+  \/ \E i \in 1..Len(s) : s[i] = "<BS>"
   \/ /\ s \notin {<<".">>, <<".", ".">>}     \* a name that is only "." or ".." is a directory: rejected end to end
      /\ \E k \in 1..Len(SplitOn(s, "/")) : SplitOn(s, "/")[k] \in {<<".">>, <<".", ".">>}
 
@@ -74,7 +74,7 @@ IncNameJudge == (l <= Len(Table) /\ ~Row.panic /\ ~Row.err /\ Unsafe(Row.in)) =>
 (* on that spelling: out.  Relation: out = v.  For values that need no     *)
 (* quotes, alt = unescape of the bare spelling, and alt = v too.           *)
 
-NeedsNoQuotes(v) == v # << >> /\ \A i \in 1..Len(v) : v[i] \notin {" ", "T", "Q", "#"} /\ ~(Len(v) >= 2 /\ v[1] = "/" /\ v[2] \in {"/", "*"})
+NeedsNoQuotes(v) == v # << >> /\ \A i \in 1..Len(v) : v[i] \notin {" ", "<TAB>", "<Q>", "#"} /\ ~(Len(v) >= 2 /\ v[1] = "/" /\ v[2] \in {"/", "*"})
 UnescapeJudge ==
   (l <= Len(Table) /\ ~Row.panic) =>
      /\ (Row.out # Row.in => Report(l, "quoted value is not read back exactly"))
@@ -97,18 +97,18 @@ TagJudge == (l = 1 /\ ~TagInjective) => Report(0, "two different first segments 
 (* left out by the driver).  line = 1 + number of line terminators before  *)
 (* idx; quote = that line without leading blanks.                          *)
 
-\* terminators: with "R" and "N" both present the content is CRLF (pairs); else the one present
+\* terminators: with "<CR>" and "<LF>" both present the content is CRLF (pairs); else the one present
 TermPositions(s) ==      \* positions of the LAST character of each terminator
-  LET hasN == \E i \in 1..Len(s) : s[i] = "N"
-  IN IF hasN THEN {i \in 1..Len(s) : s[i] = "N"} ELSE {i \in 1..Len(s) : s[i] = "R"}
+  LET hasN == \E i \in 1..Len(s) : s[i] = "<LF>"
+  IN IF hasN THEN {i \in 1..Len(s) : s[i] = "<LF>"} ELSE {i \in 1..Len(s) : s[i] = "<CR>"}
 LineOf(s, idx) == 1 + Cardinality({p \in TermPositions(s) : p <= idx})     \* idx is 0-based: p <= idx means before
 LineStart(s, idx) == LET before == {p \in TermPositions(s) : p <= idx}
                      IN IF before = {} THEN 1 ELSE (CHOOSE p \in before : \A q \in before : q <= p) + 1
 LineEndPos(s, idx) == LET after == {p \in TermPositions(s) : p > idx}
                       IN IF after = {} THEN Len(s) ELSE (CHOOSE p \in after : \A q \in after : p <= q) - 1
-StripCR(t) == IF t # << >> /\ t[Len(t)] = "R" THEN SubSeq(t, 1, Len(t) - 1) ELSE t
+StripCR(t) == IF t # << >> /\ t[Len(t)] = "<CR>" THEN SubSeq(t, 1, Len(t) - 1) ELSE t
 RECURSIVE LTrim(_)
-LTrim(t) == IF t # << >> /\ t[1] \in {" ", "T", "N", "R"} THEN LTrim(Tail(t)) ELSE t
+LTrim(t) == IF t # << >> /\ t[1] \in {" ", "<TAB>", "<LF>", "<CR>"} THEN LTrim(Tail(t)) ELSE t
 QuoteOf(s, idx) == LTrim(StripCR(SubSeq(s, LineStart(s, idx), LineEndPos(s, idx))))
 LocationJudge ==
   (l <= Len(Table) /\ ~Row.panic) =>
@@ -124,7 +124,7 @@ Lines(s) ==
   LET idx == {i \in 1..Len(s) : IsNl(s[i])} IN
   IF idx = {} THEN << s >>
   ELSE LET i == CHOOSE x \in idx : \A y \in idx : x <= y
-           skip == IF s[i] = "R" /\ i < Len(s) /\ s[i + 1] = "N" THEN 2 ELSE 1
+           skip == IF s[i] = "<CR>" /\ i < Len(s) /\ s[i + 1] = "<LF>" THEN 2 ELSE 1
        IN << SubSeq(s, 1, i - 1) >> \o Lines(SubSeq(s, i + skip, Len(s)))
 RECURSIVE DropBlankHead(_)
 DropBlankHead(ls) == IF ls # << >> /\ AllWs(ls[1]) THEN DropBlankHead(Tail(ls)) ELSE ls
@@ -143,7 +143,7 @@ CommonIndent(ls) ==
            cand == {n \in 0..LeadWs(first) : ok(n)}
        IN CHOOSE n \in cand : \A m \in cand : m <= n
 RECURSIVE JoinNl(_)
-JoinNl(ls) == IF ls = << >> THEN << >> ELSE IF Len(ls) = 1 THEN ls[1] ELSE ls[1] \o <<"N">> \o JoinNl(Tail(ls))
+JoinNl(ls) == IF ls = << >> THEN << >> ELSE IF Len(ls) = 1 THEN ls[1] ELSE ls[1] \o <<"<LF>">> \o JoinNl(Tail(ls))
 NF(s) ==
   LET ls  == DropBlankTail(DropBlankHead(Lines(s)))
       n   == CommonIndent(ls)
@@ -151,9 +151,16 @@ NF(s) ==
   IN IF ls = << >> THEN << >>
      ELSE LET j == JoinNl(cut) IN RTrim(j)
 
+\* An inner line that consists of blanks only (and is not empty) makes the sentence ambiguous:
+\* does it have indentation that counts towards "the indentation common to its lines"?  The
+\* code says yes; NF says no.  Such texts are left out of the judged set.
+Ambiguous(s) ==
+  LET ls == DropBlankTail(DropBlankHead(Lines(s)))
+  IN \E i \in 1..Len(ls) : AllWs(ls[i]) /\ ls[i] # << >>
+
 HasParenSpelling(s) == ~(\E i \in 1..Len(s) : s[i] \in {"(", ")"})
 DescriptionJudge ==
-  (l <= Len(Table) /\ ~Row.panic /\ HasParenSpelling(Row.in)) =>
+  (l <= Len(Table) /\ ~Row.panic /\ HasParenSpelling(Row.in) /\ ~Ambiguous(Row.in)) =>
      /\ ((~Row.err /\ Row.out # NF(Row.in)) => Report(l, "not the normal form"))
      /\ ((~Row.err /\ Row.out2 # Row.out) => Report(l, "normalising twice changes the text"))
      /\ ((~Row.err /\ NF(Row.in) # << >> /\ (Row.alterr \/ Row.alt # Row.out)) => Report(l, "parenthesised spelling differs"))
@@ -164,11 +171,27 @@ DescriptionJudge ==
 RECURSIVE Collapse(_, _)
 Collapse(s, prevWs) ==
   IF s = << >> THEN << >>
-  ELSE IF s[1] \in {" ", "T", "N", "R"}
+  ELSE IF s[1] \in {" ", "<TAB>", "<LF>", "<CR>"}
        THEN (IF prevWs THEN << >> ELSE << " " >>) \o Collapse(Tail(s), TRUE)
        ELSE << s[1] >> \o Collapse(Tail(s), FALSE)
 AnnotNF(s) == LET c == Collapse(s, TRUE) IN IF c # << >> /\ c[Len(c)] = " " THEN SubSeq(c, 1, Len(c) - 1) ELSE c
 AnnotationJudge == (l <= Len(Table) /\ ~Row.panic /\ Row.out # AnnotNF(Row.in)) => Report(l, "annotation not collapsed")
+
+\* end to end: in = the text written under a Description directive, out = the description in
+\* the catalog when written bare ("-" rows: not applicable), alt = when written in parentheses
+DescriptionE2E ==
+  (l <= Len(Table) /\ ~Row.panic /\ ~Ambiguous(Row.in)) =>
+     /\ ((Row.hasbare /\ ~Row.err /\ Row.out # NF(Row.in)) => Report(l, "bare spelling: not the normal form"))
+     /\ ((Row.hasbare /\ Row.err /\ NF(Row.in) # << >>) => Report(l, "bare spelling rejected"))
+     /\ ((~Row.alterr /\ Row.alt # NF(Row.in)) => Report(l, "parenthesised spelling: not the normal form"))
+     /\ ((Row.alterr /\ NF(Row.in) # << >>) => Report(l, "parenthesised spelling rejected"))
+     /\ ((NF(Row.in) = << >> /\ ((Row.hasbare /\ ~Row.err) \/ ~Row.alterr)) => Report(l, "blank description accepted"))
+\* in = annotation text; out = annotation in the catalog written after "//" (hasbare: single
+\* line), alt = written between "/*" and "*/"
+AnnotationE2E ==
+  (l <= Len(Table) /\ ~Row.panic) =>
+     /\ ((Row.hasbare /\ Row.out # AnnotNF(Row.in)) => Report(l, "// spelling not collapsed"))
+     /\ ((~Row.alterr /\ Row.alt # AnnotNF(Row.in)) => Report(l, "/* */ spelling not collapsed"))
 
 -----------------------------------------------------------------------------
 Judge ==
@@ -178,8 +201,10 @@ Judge ==
        [] Fn = "tagname"     -> TagJudge
        [] Fn = "location"    -> LocationJudge
        [] Fn = "description" -> DescriptionJudge
+       [] Fn = "description_e2e" -> DescriptionE2E
        [] Fn = "annotation"  -> AnnotationJudge
+       [] Fn = "annotation_e2e" -> AnnotationE2E
        [] OTHER -> TRUE
 
-Complete == (l = 1 /\ Fn # "location") => (InputsOK(IF Fn = "incname" THEN 1 ELSE 0) \/ Report(0, "table incomplete"))
+Complete == (l = 1 /\ Fn \notin {"location", "description_e2e", "annotation_e2e"}) => (InputsOK(IF Fn = "incname" THEN 1 ELSE 0) \/ Report(0, "table incomplete"))
 =============================================================================
